@@ -145,7 +145,8 @@ def _build_single(prof):
       bound='prelude (a1,b1,l2,as1 selected; a2,b2,l1 created; x=1) + every single statement the generator can form with atomic '
             'expressions: assignment to variables/attributes, create, delete, relate/unrelate over R1..R4 in both argument orders '
             '(phrases, using), select any/many from instances (with/without where), select one/any/many related by chains of '
-            'length 1 (quick) / 2 (thorough) from instance and set, return, control stop; followed by an epilogue that stores the final variable values in the population; x 3 populations; exhaustive')
+            'length 1 (quick) / 2 (thorough) from instance and set, return, control stop (3007 programs quick / 14199 thorough); followed by an epilogue that stores the final variable values in the '
+            'population; x 3 populations; exhaustive')
 def single_statements(ctx):
     import random
     prof = dict(depth=0, ints=[0, 2], strs=['x'], chain=1 if ctx.quick else 2, elifs=[0], where=0.5)
@@ -191,7 +192,7 @@ def _build_control(budget):
 @item('control-flow', stands_in_for=STANDS, shards=6, weight=3,
       bound='prelude + every nesting of if/elif/else, counted while, for each over the 3-instance set, break, continue, return, '
             'control stop around 3 marker statements (x=x+1; a1.i=a1.i+x; create B) and 3 guards (true,false,x<2), up to 3 statements '
-            'in total (exhaustive: 15982 programs); thorough adds samples of the 4-statement space (754013 programs); population rich')
+            'in total (exhaustive: 20475 programs); thorough adds samples of the 4-statement space (about 10^6 programs); population rich')
 def control_flow(ctx):
     import random
     if ctx.shard == 0:
@@ -210,7 +211,7 @@ def control_flow(ctx):
         return
     build = _build_control(4)
     extra = 0
-    while not soft_expired(ctx):             # thorough: the 4-statement space (754013 programs) is sampled
+    while not soft_expired(ctx):             # thorough: the 4-statement space (about 10^6 programs) is sampled
         tree = build(G.RandomChooser(ctx.rng))
         run_case(ctx, tree, 'rich', 'control-flow')
         extra += 1
